@@ -510,6 +510,124 @@ fn dispatch_serde(ty: &str, operands: &[Vec<&str>]) -> Vec<String> {
     }
 }
 
+// ---------------------------------------------------------------------------------------------------------------
+// driver functions on closures that also exist in the Coq model (coq/ND/Hand/DriverFns.v)
+fn cji(j: usize, i: usize) -> f64 {
+    (1 + (3 * j + 5 * i) % 7) as f64
+}
+/// f_j(x) = e_j + sum_i (x_i * x_i * x_{(i+1) mod n}) * c(j,i) + x_{j mod n} * d_j
+fn poly<D: DualNum<f64>>(x: &[D], j: usize) -> D {
+    let n = x.len();
+    let mut acc = D::from(0.5 * j as f64);
+    for i in 0..n {
+        acc = acc + (x[i].clone() * &x[i] * &x[(i + 1) % n]) * cji(j, i);
+    }
+    if n > 0 {
+        acc = acc + x[j % n].clone() * (2.0 + j as f64);
+    }
+    acc
+}
+/// h(x, y) = 0.25 + sum_i sum_k (x_i * y_k * y_k) * c(i,k) + sum_i x_i * (2 + i)
+fn poly2<D: DualNum<f64>>(x: &[D], y: &[D]) -> D {
+    let mut acc = D::from(0.25);
+    for i in 0..x.len() {
+        for k in 0..y.len() {
+            acc = acc + (x[i].clone() * &y[k] * &y[k]) * cji(i, k);
+        }
+    }
+    for i in 0..x.len() {
+        acc = acc + x[i].clone() * (2.0 + i as f64);
+    }
+    acc
+}
+fn wf(v: f64, out: &mut Vec<String>) {
+    out.push(format!("{:016x}", v.to_bits()))
+}
+fn driver(name: &str, aux: &[&str], operands: &[Vec<&str>]) -> Vec<String> {
+    use nalgebra::{DVector, SVector};
+    let x: Vec<f64> = operands.get(0).map(|t| t.iter().map(|s| f64::rdf(s)).collect()).unwrap_or_default();
+    let y: Vec<f64> = operands.get(1).map(|t| t.iter().map(|s| f64::rdf(s)).collect()).unwrap_or_default();
+    let m: usize = aux.get(0).map(|s| s.parse().unwrap()).unwrap_or(1);
+    let fail: i32 = aux.get(1).map(|s| s.parse().unwrap()).unwrap_or(0);
+    let mut out = vec![];
+    let o = &mut out;
+    macro_rules! res { ($r:expr, $ok:expr) => { match $r { Ok(v) => { o.push("okv".into()); $ok(v, o) } Err(e) => { o.push("err".into()); o.push(format!("i{}", e)) } } }; }
+    match name {
+        "first_derivative" => { let (a, b) = first_derivative(|d| poly(&[d], 1), x[0]); wf(a, o); wf(b, o) }
+        "second_derivative" => { let (a, b, c) = second_derivative(|d| poly(&[d], 1), x[0]); wf(a, o); wf(b, o); wf(c, o) }
+        "third_derivative" => { let (a, b, c, d) = third_derivative(|d| poly(&[d], 1), x[0]); wf(a, o); wf(b, o); wf(c, o); wf(d, o) }
+        "second_partial_derivative" => { let (a, b, c, d) = second_partial_derivative(|p, q| poly2(&[p], &[q]), x[0], y[0]); wf(a, o); wf(b, o); wf(c, o); wf(d, o) }
+        "third_partial_derivative" => {
+            let r = third_partial_derivative(|p, q, s| poly(&[p, q, s], 2), x[0], x[1], x[2]);
+            for v in [r.0, r.1, r.2, r.3, r.4, r.5, r.6, r.7] { wf(v, o) }
+        }
+        "third_partial_derivative_vec" => {
+            let (i, j, k): (usize, usize, usize) = (aux[2].parse().unwrap(), aux[3].parse().unwrap(), aux[4].parse().unwrap());
+            let r = third_partial_derivative_vec(|v| poly(v, 1), &x, i, j, k);
+            for v in [r.0, r.1, r.2, r.3, r.4, r.5, r.6, r.7] { wf(v, o) }
+        }
+        "try_third_partial_derivative_vec" => {
+            let (i, j, k): (usize, usize, usize) = (aux[2].parse().unwrap(), aux[3].parse().unwrap(), aux[4].parse().unwrap());
+            let r = try_third_partial_derivative_vec(|v| if fail != 0 { Err(fail) } else { Ok(poly(v, 1)) }, &x, i, j, k);
+            res!(r, |r: (f64, f64, f64, f64, f64, f64, f64, f64), o: &mut Vec<String>| for v in [r.0, r.1, r.2, r.3, r.4, r.5, r.6, r.7] { wf(v, o) })
+        }
+        "gradient" => { let (f, g) = gradient(|v| poly(v.as_slice(), 1), DVector::from_vec(x.clone())); wf(f, o); for v in g.iter() { wf(*v, o) } }
+        "gradient_s3" => { let (f, g) = gradient(|v| poly(v.as_slice(), 1), SVector::<f64, 3>::from_row_slice(&x)); wf(f, o); for v in g.iter() { wf(*v, o) } }
+        "try_gradient" => {
+            let r = try_gradient(|v| if fail != 0 { Err(fail) } else { Ok(poly(v.as_slice(), 1)) }, DVector::from_vec(x.clone()));
+            res!(r, |(f, g): (f64, DVector<f64>), o: &mut Vec<String>| { wf(f, o); for v in g.iter() { wf(*v, o) } })
+        }
+        "jacobian" => {
+            let (f, jac) = jacobian(|v| DVector::from_fn(m, |j, _| poly(v.as_slice(), j)), DVector::from_vec(x.clone()));
+            for v in f.iter() { wf(*v, o) }
+            for i in 0..jac.nrows() { for j in 0..jac.ncols() { wf(jac[(i, j)], o) } }
+        }
+        "jacobian_s2x3" => {
+            let (f, jac) = jacobian(|v| SVector::<_, 2>::from_fn(|j, _| poly(v.as_slice(), j)), SVector::<f64, 3>::from_row_slice(&x));
+            for v in f.iter() { wf(*v, o) }
+            for i in 0..2 { for j in 0..3 { wf(jac[(i, j)], o) } }
+        }
+        "try_jacobian" => {
+            let r = try_jacobian(|v| if fail != 0 { Err(fail) } else { Ok(DVector::from_fn(m, |j, _| poly(v.as_slice(), j))) }, DVector::from_vec(x.clone()));
+            res!(r, |(f, jac): (DVector<f64>, nalgebra::DMatrix<f64>), o: &mut Vec<String>| {
+                for v in f.iter() { wf(*v, o) }
+                for i in 0..jac.nrows() { for j in 0..jac.ncols() { wf(jac[(i, j)], o) } }
+            })
+        }
+        "hessian" => {
+            let (f, g, h) = hessian(|v| poly(v.as_slice(), 1), DVector::from_vec(x.clone()));
+            wf(f, o); for v in g.iter() { wf(*v, o) }
+            for i in 0..h.nrows() { for j in 0..h.ncols() { wf(h[(i, j)], o) } }
+        }
+        "hessian_s2" => {
+            let (f, g, h) = hessian(|v| poly(v.as_slice(), 1), SVector::<f64, 2>::from_row_slice(&x));
+            wf(f, o); for v in g.iter() { wf(*v, o) }
+            for i in 0..2 { for j in 0..2 { wf(h[(i, j)], o) } }
+        }
+        "try_hessian" => {
+            let r = try_hessian(|v| if fail != 0 { Err(fail) } else { Ok(poly(v.as_slice(), 1)) }, DVector::from_vec(x.clone()));
+            res!(r, |(f, g, h): (f64, DVector<f64>, nalgebra::DMatrix<f64>), o: &mut Vec<String>| {
+                wf(f, o); for v in g.iter() { wf(*v, o) }
+                for i in 0..h.nrows() { for j in 0..h.ncols() { wf(h[(i, j)], o) } }
+            })
+        }
+        "partial_hessian" => {
+            let (f, gx, gy, h) = partial_hessian(|p, q| poly2(p.as_slice(), q.as_slice()), DVector::from_vec(x.clone()), DVector::from_vec(y.clone()));
+            wf(f, o); for v in gx.iter() { wf(*v, o) } for v in gy.iter() { wf(*v, o) }
+            for i in 0..h.nrows() { for j in 0..h.ncols() { wf(h[(i, j)], o) } }
+        }
+        "try_partial_hessian" => {
+            let r = try_partial_hessian(|p, q| if fail != 0 { Err(fail) } else { Ok(poly2(p.as_slice(), q.as_slice())) }, DVector::from_vec(x.clone()), DVector::from_vec(y.clone()));
+            res!(r, |(f, gx, gy, h): (f64, DVector<f64>, DVector<f64>, nalgebra::DMatrix<f64>), o: &mut Vec<String>| {
+                wf(f, o); for v in gx.iter() { wf(*v, o) } for v in gy.iter() { wf(*v, o) }
+                for i in 0..h.nrows() { for j in 0..h.ncols() { wf(h[(i, j)], o) } }
+            })
+        }
+        _ => panic!("unknown driver {name}"),
+    }
+    out
+}
+
 /// nalgebra ComplexField / RealField methods of the four field-compatible types
 fn field_ops<D>(op: &str, aux: &[&str], operands: &[Vec<&str>]) -> Vec<String>
 where
@@ -710,6 +828,8 @@ fn main() {
         let res = std::panic::catch_unwind(|| {
             if head[1] == "serde" {
                 dispatch_serde(head[2], &operands)
+            } else if head[1] == "driver" {
+                driver(head[2], &head[3..], &operands)
             } else if head[1] == "field" {
                 dispatch_field(head[2], head[3], &head[4..], &operands)
             } else if head[1] == "conv" && (head[2] == "f32" || head[2] == "f64") {
